@@ -180,6 +180,19 @@ def install(I):
         old = st.old[0] if isinstance(st.old, tuple) else st.old
         yield SV(BOOL, o.tree >= old.nref), st
 
+    @reg("normalized")
+    def _normalized(I, st, args, kw):
+        """spec-only: a tuple of scalars (symbolic length) carries the default value beyond its length -- the representation
+        invariant that makes 'same key' coincide with 'same length and same components' (every value produced by tuple(list) has it)"""
+        v = args[0]
+        if not (isinstance(v, SV) and v.kind.tag == "list") or isinstance(v.tree[1], tuple):
+            yield True, st
+            return
+        ek = v.kind.args[0]
+        i = z3.Int(core.fresh_name("ni"))
+        dflt = z3.BoolVal(False) if ek.tag == "bool" else z3.IntVal(0)
+        yield SV(BOOL, z3.ForAll([i], z3.Implies(z3.Or(i < 0, i >= v.tree[0]), z3.Select(v.tree[1], i) == dflt))), st
+
     @reg("allocated")
     def _allocated(I, st, args, kw):
         o = args[0]
@@ -417,6 +430,11 @@ def install(I):
             val = SV(INT, z3.If(z3.Or(Val.is_VInt(x), Val.is_VBool(x)), core.int_of(x), z3.If(r >= 0, z3.ToInt(r), -z3.ToInt(-r))))
             # strings that parse are not modelled: int("12") on a symbolic string is a ValueError-or-value fork
             is_str = Val.is_VStr(x)
+            if st.pure:
+                # specification context: one total value (no exception paths, no forks)
+                pv0 = I.ufunc("str_int_value", core.I, core.I)(Val.s(x))
+                yield SV(INT, z3.If(is_str, pv0, val.tree)), st
+                return
             for _, s in I.partial(st, z3.Or(ok, is_str), "TypeError", None):
                 if I.feasible(s, is_str):
                     sv = s.assume(is_str)
@@ -547,7 +565,18 @@ def install(I):
             yield v, st      # tuple(t) of a Val that is a tuple (definedness not checked: A-builtins)
             return
         if isinstance(v, SV) and v.kind.tag == "list":
-            # tuple(xs) of a list of symbolic length: the same sequence as an immutable value (no home)
+            # tuple(xs) of a list of symbolic length: the same sequence as an immutable value (no home).  For scalar elements
+            # the value is hashable (core.keysort): its array is NORMALISED -- a default beyond the length -- so that two tuples are
+            # the same key exactly when they have the same length and the same components
+            ek = v.kind.args[0]
+            if ek.tag in ("int", "str", "bool", "obj") and not isinstance(v.tree[1], tuple):
+                n = v.tree[0]
+                arr = z3.Const(core.fresh_name("tupn"), v.tree[1].sort())
+                i = z3.Int(core.fresh_name("i"))
+                dflt = z3.BoolVal(False) if ek.tag == "bool" else z3.IntVal(0)
+                I.define([z3.ForAll([i], z3.Select(arr, i) == z3.If(z3.And(0 <= i, i < n), z3.Select(v.tree[1], i), dflt))])
+                yield SV(v.kind, (n, arr)), st
+                return
             yield SV(v.kind, v.tree), st
             return
         raise Unsupported("tuple(%r)" % (v,))
